@@ -644,7 +644,9 @@ def scanl(
         else:
             yield working
             working = safe_apply(function, working, item, ctx=ctx)
-    yield working
+    if working is not None:
+        # (an empty vector has no partial results at all)
+        yield working
 
 
 def sentence_case(item: str) -> str:
